@@ -909,6 +909,9 @@ m("c01-begin-block-gas-left", "C01", "app/app.go",
 m("c20-chain-id-not-set-at-construction", "C20", "app/app.go",
   "\tevmKeeper.WithChainIDString(chainID)\n", "",
   "eip155ChainID#set-at-construction", "the chain id is bound by the first BeginBlock only")
+m("c19-symbol-stored-raw", "C19", "x/erc20/keeper/proposals.go",
+  "strings.ToValidUTF8(erc20Data.Symbol, \"\\uFFFD\")", "strings.TrimSpace(erc20Data.Symbol)",
+  "Metadata.Symbol-1-sanitised", "the contract's symbol is stored as returned")
 for prop in ("C16", "C07"):
     m("c%s-gas-meter-without-precharge" % prop[1:], prop, "precompiles/common/precompile.go",
       "sdk.NewGasMeter(initialGas + contract.Gas)", "sdk.NewGasMeter(contract.Gas)",
